@@ -228,7 +228,7 @@ def class_sweep():
 
 
 # ---- C13: expressions over symbols
-SYMS = ["x", "y", "z", "w"]
+SYMS = ["x", "y", "z", "w", "x0"]
 F1_LAMBDA = F1 + ["sign", "floor", "ceiling", "truncate"]
 DOUBLES = ["0000000000000000", "8000000000000000", "3ff0000000000000", "bff0000000000000", "3fe0000000000000",
            "4000000000000000", "3ff8000000000000", "c004000000000000", "4024000000000000", "3fb999999999999a",
